@@ -823,6 +823,12 @@ func genC08(g *Gen, tier string, emit func(op string, args ...string)) {
 		if wire, err := req.Encode(); err == nil {
 			codes := replyCodesFor[reqCode]
 			reply = replyDatagram(wire, secret, codes[g.Intn(len(codes))], g.replyAttrs(0))
+			if g.Chance(1, 8) {
+				// the largest legal reply: exactly 4096 octets, the size of the client's receive buffer
+				if w := g.c05Datagram(13, 0, wire, secret, reqCode, nil); len(w) >= 4096 {
+					reply = w[:4096]
+				}
+			}
 			if g.Chance(1, 2) {
 				// garbage that parses but does not verify: a reply made with another secret
 				garbage = replyDatagram(wire, secret, codes[g.Intn(len(codes))], g.replyAttrs(1))
